@@ -118,6 +118,10 @@ def _call(which, d, p, partial, form="positional"):
     from toqito.perms import antisymmetric_projection, symmetric_projection
 
     f = antisymmetric_projection if which == "asym" else symmetric_projection
+    if form in ("flag-int", "flag-npbool"):  # the Boolean flag written as 0 / 1 or as a numpy bool (e.g. the result of a comparison of arrays)
+        import numpy as np
+
+        return f(d, p, (1 if partial else 0) if form == "flag-int" else np.bool_(partial))
     if form == "defaults":  # p = 2, partial = False by default
         return f(d)
     if form == "keywords":
@@ -626,6 +630,15 @@ def cases(tier, seed):
             add(cl, prm, _asym_class(d, p, False), nt)
         for cl in ("asym.partial_orthonormal", "asym.partial_span"):
             add(cl, prm, _asym_class(d, p, True), nt)
+        if (d, p) in ((2, 2), (3, 2), (2, 3), (3, 3)):
+            for form in ("flag-int", "flag-npbool"):
+                q = dict(d=d, p=p, form=form)
+                for cl in ("sym.partial_orthonormal", "sym.partial_span"):
+                    add(cl, q, _sym_class(d, p, True) + "/" + form, nt)
+                for cl in ("asym.partial_orthonormal", "asym.partial_span"):
+                    add(cl, q, _asym_class(d, p, True) + "/" + form, nt)
+                add("sym.explicit", q, _sym_class(d, p, False) + "/" + form, nt)
+                add("asym.explicit", q, _asym_class(d, p, False) + "/" + form, nt)
         pc = "pair/" + _asym_class(d, p, False).split("/")[1] + ("/d=1" if d == 1 and p >= 2 else "")
         if p >= 2:  # for p = 1 both subspaces are the whole space, so orthogonality is only claimed for p >= 2
             add("pair.orthogonal", prm, pc, nt)
